@@ -1,7 +1,7 @@
 package sam
 
 import (
-	"encoding/csv"
+	"bufio"
 	"io"
 	"iter"
 	"strings"
@@ -12,39 +12,39 @@ import (
 // ReaderHeader iterates over SAM or header entries in a reader.
 func ReaderHeader(r io.Reader) iter.Seq2[SAMOrHeader, error] {
 	return func(yield func(SAMOrHeader, error) bool) {
-		csvReader := csv.NewReader(r)
-		csvReader.Comma = '\t'
-		csvReader.FieldsPerRecord = -1 // Allow variable number of fields.
-		csvReader.LazyQuotes = true
+		br := bufio.NewReader(r)
 		for {
-			line, err := csvReader.Read()
-			if err == io.EOF {
+			text, err := br.ReadString('\n')
+			if err != nil && err != io.EOF {
+				// Reading failed. The line may be incomplete and the
+				// rest of the input is unavailable.
+				yield(SAMOrHeader{}, err)
 				break
 			}
-			// Error case.
-			if err != nil {
-				if _, ok := err.(*csv.ParseError); !ok {
-					// Reading failed. The line may be incomplete and the
-					// rest of the input is unavailable.
-					yield(SAMOrHeader{}, err)
-					break
-				}
-				if !yield(SAMOrHeader{}, err) {
+			last := err == io.EOF
+			text = strings.TrimSuffix(text, "\n")
+			text = strings.TrimSuffix(text, "\r")
+			// Skip empty lines.
+			if text == "" {
+				if last {
 					break
 				}
 				continue
 			}
 			// Header line case.
-			if len(line) > 0 && strings.HasPrefix(line[0], "@") {
-				h := strings.Join(line, "\t")
-				if !yield(SAMOrHeader{H: &h}, nil) {
+			if strings.HasPrefix(text, "@") {
+				if !yield(SAMOrHeader{H: &text}, nil) {
 					break
 				}
-				continue
+			} else {
+				// SAM line case. Fields are separated by tabs and may
+				// contain any other character.
+				s, err := parseLine(strings.Split(text, "\t"))
+				if !yield(SAMOrHeader{S: s}, err) {
+					break
+				}
 			}
-			// SAM line case.
-			s, err := parseLine(line)
-			if !yield(SAMOrHeader{S: s}, err) {
+			if last {
 				break
 			}
 		}
